@@ -231,17 +231,20 @@ example :
       none, none ] := by
   decide +kernel
 
+/-- the new term: `p0` of C07Example without exclusion (first hit: document 1, in chunk 0) -/
+def pNew : PList := { p0 with except := none }
+
 /-- WITHOUT `freqNormReader.reset()`: `currChunk` is 0 again (struct cleared) and the first hit of
     the new term lies in chunk 0, but `isNil()` is false because the reader still holds the OLD
-    term's chunk — `loadChunk` is skipped and document 1 is reported with the old term's frequency 8,
-    norm 1 and location 8 instead of 2 / 7 / locations 1, 5 -/
-def sig (h : Option Hit) : Option (Nat × Nat × Nat × List Nat) :=
-  h.map (fun h => (h.doc, h.freq, h.norm, h.locs.map (·.pos)))
-
+    term's chunk — `loadChunk` is skipped and document 1 is reported with the old term's frequency 8
+    and norm 1 (and no locations: the location reader WAS reset) instead of 2 / 7 / locations 1, 5 -/
 theorem no_reset_stale_chunk :
-    ((ItObj.recycle noFnReset (some usedIter) src0 p0 true true true).run [.next]).map sig =
-      [some (1, 8, 1, [8])] ∧
-    ((It.create p0 true true true).run [.next]).map sig = [some (1, 2, 7, [1, 5])] := by
+    (ItObj.recycle noFnReset (some usedIter) src0 pNew true true true).run [.next] =
+      [some { doc := 1, freq := 8, norm := 1, locs := [] }] ∧
+    (It.create pNew true true true).run [.next] =
+      [some { doc := 1, freq := 2, norm := 7, locs := [loc 1, loc 5] }] ∧
+    (ItObj.recycle Flags.source (some usedIter) src0 pNew true true true).run [.next] =
+      [some { doc := 1, freq := 2, norm := 7, locs := [loc 1, loc 5] }] := by
   decide +kernel
 
 /-- WITHOUT `locReader.reset()` the hits are still right on this run (the first access loads the
